@@ -5607,7 +5607,7 @@ class CodegenCtx:
         elif isinstance(action, SetToStr):
             assert action.into_storage.holds_a(OutputStorageType.STR)
             # Check if we need to allocate
-            if ProgramData.do(ProgramFlag.ALLOCATE_STR_SPACE_DYNAMIC_ON_DEMAND) and action.into_storage.default_value is None:  # if it wasn't None it'd be allocated in the start()
+            if ProgramData.do(ProgramFlag.ALLOCATE_STR_SPACE_DYNAMIC_ON_DEMAND) and self._may_be_unallocated(action.into_storage):  # otherwise it is allocated in the start() and stays so
                 if is_start:
                     # if we're at the start, and there's no default value, and on demand is in effect, there's no possible way for state->c to have any value other than NULL
                     result.add(f"state->c.{action.into_storage.name} = malloc({action.into_storage.str_size});")
@@ -5627,7 +5627,7 @@ class CodegenCtx:
             else:
                 # if buffer is not freed, ensure strings are made empty
                 if action.into_storage.holds_a(OutputStorageType.STR) and action.into_storage.str_null:
-                    if ProgramData.do(ProgramFlag.ALLOCATE_STR_SPACE_DYNAMIC_ON_DEMAND) and action.into_storage.default_value is None and self._is_dynamic(action.into_storage):
+                    if ProgramData.do(ProgramFlag.ALLOCATE_STR_SPACE_DYNAMIC_ON_DEMAND) and self._may_be_unallocated(action.into_storage) and self._is_dynamic(action.into_storage):
                         # the buffer may not have been allocated yet (and never is at the start)
                         if not is_start:
                             result.add(f"if (state->c.{action.into_storage.name}) state->c.{action.into_storage.name}[0] = 0;")
@@ -5639,7 +5639,7 @@ class CodegenCtx:
             assert action.into_storage.holds_buflike()
             output_length_expr = self._generate_buflike_length_expr(action.into_storage)
             # Check if we need to allocate
-            if ProgramData.do(ProgramFlag.ALLOCATE_STR_SPACE_DYNAMIC_ON_DEMAND) and action.into_storage.default_value is None and self._is_dynamic(action.into_storage):  # if it wasn't None it'd be allocated in the start()
+            if ProgramData.do(ProgramFlag.ALLOCATE_STR_SPACE_DYNAMIC_ON_DEMAND) and self._may_be_unallocated(action.into_storage) and self._is_dynamic(action.into_storage):  # otherwise it is allocated in the start() and stays so
                 result.add(f"if (!state->c.{action.into_storage.name}) state->c.{action.into_storage.name} = malloc({output_length_expr});")
             # We treat the size given in by the user as including a terminating null (if requested, anyways)
             max_length_expr = self._generate_buflike_length_expr(action.into_storage, include_null=True)
@@ -5714,6 +5714,10 @@ class CodegenCtx:
         else:
             raise NotImplementedError(action)
         return result.value()
+
+    def _may_be_unallocated(self, out_expr: OutputStorage):
+        # a string with a default value is allocated in start(), but `delete` can free it again
+        return out_expr.default_value is None or ProgramData.do(ProgramFlag.DELETE_STRING_FREE_MEMORY)
 
     def _is_dynamic(self, out_expr: OutputStorage):
         return out_expr.holds_a(OutputStorageType.STR) and ProgramData.do(ProgramFlag.ALLOCATE_STR_SPACE_DYNAMIC)
